@@ -518,6 +518,10 @@ pub fn cmd_static(a: &Args) {
     let fault = a.get("fault", "no") == "yes";
     let failing = a.get("failing", "no") == "yes";
     let with_agree = a.get("agree", "no") == "yes";
+    // C16/C17: the exchange with an external solver process fails at one SAT-call position (fakesat failat:K:<submode>)
+    let procfault = a.get("procfault", "");
+    let fakesat = a.get("fakesat", "");
+    let tmpdir = a.get("tmp", "/verif/work/tmp");
     let cap: usize = a.get("cap", "1500").parse().unwrap();
     let maxq: usize = a.get("maxq", "1000000").parse().unwrap();
     let out = a.get("out", "/dev/stdout");
@@ -581,6 +585,27 @@ pub fn cmd_static(a: &Args) {
                                     o.faulted = ctl.borrow().n_solve > 0;
                                     lines.push(json!({"ev": "fault", "sem": sem, "kind": kind, "args": qa, "cert": cert,
                                         "enc": enc, "at": 1, "of": ctl.borrow().n_solve, "how": backend, "out": outcome_json(&o)}).to_string());
+                                    continue;
+                                }
+                                if !procfault.is_empty() {
+                                    std::fs::create_dir_all(&tmpdir).ok();
+                                    let ctr = format!("{}/ctr_{}_{}_{}", tmpdir, std::process::id(), idx, nq);
+                                    let ctl0 = Ctl::new(false, vec![]);
+                                    ctl0.borrow_mut().backend = format!("ext:{}", fakesat);
+                                    let _ = run_query(&af, sem, kind, qa, *cert, enc, &ctl0);
+                                    let k = ctl0.borrow().n_solve;
+                                    for pos in 1..=k {
+                                        let _ = std::fs::remove_file(&ctr);
+                                        let ctl = Ctl::new(false, vec![]);
+                                        ctl.borrow_mut().backend = format!("ext:{}|--counter|{}|--mode|failat:{}:{}", fakesat, ctr, pos, procfault);
+                                        let mut o = run_query(&af, sem, kind, qa, *cert, enc, &ctl);
+                                        // the failing call was reached iff the counter got that far
+                                        let reached: usize = std::fs::read_to_string(&ctr).ok().and_then(|t| t.trim().parse().ok()).unwrap_or(0);
+                                        o.faulted = reached >= pos;
+                                        lines.push(json!({"ev": "fault", "sem": sem, "kind": kind, "args": qa, "cert": cert,
+                                            "enc": enc, "at": pos, "of": k, "how": format!("process:{}", procfault), "out": outcome_json(&o)}).to_string());
+                                    }
+                                    let _ = std::fs::remove_file(&ctr);
                                     continue;
                                 }
                                 if fault {
